@@ -4,6 +4,9 @@ Workspace half: real job directories are created by real submits of the Old* cla
 harness/vpk_c20 (not yet deprecated), the classes are then @deprecate'd, partial manual repairs
 are applied, and sequences of real fix_deprecated calls are observed (jobs/ tree after each call);
 the Coq model (model/Deprecate.v) replays the same sequences inside coqc (corr/DeprecateCorr.v).
+The step in between - the identity the repair command recomputes from a stored params.json - is observed too
+(real load_job + identifier per job directory) and replayed by the model's loader and identifier (SHA-256) on
+the real definitions; job graphs carry Meta[...] members and setmeta(True / False) flags at any position.
 Identifier half (implementation side): graphs with deprecated classes at random positions have,
 node by node, the identifier of the same graph written with the replacement classes.
 """
@@ -13,17 +16,24 @@ import json
 import os
 from concurrent.futures import ThreadPoolExecutor
 
-from vcommon import Check, InternalError, main_wrapper, run_impl, gz, glist, gbool, ROOT
+from vcommon import Check, InternalError, main_wrapper, run_impl, gz, glist, gbool, gnat, gopt, gbytes, ROOT
+import identgen      # Gallina printers of values / class tables (shared with the identifier checks)
 
 # ------------------------------------------------------------------ graph generator
 LEAVES = ["NewLeaf", "OldLeaf", "OlderLeaf"]
 MIDS = ["NewMid", "OldMid"]
 TASKS = ["NewTask", "RenamedTask", "MovedTask"]
 BIGS = ["NewBig", "OldBig"]
-EQUIV = [LEAVES, MIDS, TASKS, BIGS]
-OLD = {"OldLeaf", "OlderLeaf", "OldMid", "RenamedTask", "MovedTask", "OldBig"}
+AUXES = ["NewAux", "OldAux"]
+EQUIV = [LEAVES, MIDS, TASKS, BIGS, AUXES]
+OLD = {"OldLeaf", "OlderLeaf", "OldMid", "RenamedTask", "MovedTask", "OldBig", "OldAux"}
 OLD2NEW = {"OldLeaf": "NewLeaf", "OlderLeaf": "NewLeaf", "OldMid": "NewMid", "RenamedTask": "NewTask",
-           "MovedTask": "NewTask", "OldBig": "NewBig"}
+           "MovedTask": "NewTask", "OldBig": "NewBig", "OldAux": "NewAux"}
+# parameters declared Meta[...] in vpk_c20 (ignored by the identifier unless the value is flagged setmeta(., False))
+META_PARAMS = {"aux", "auxes"}
+# parameters without a default, per family of classes (spec reductions never drop them)
+REQUIRED = {"NewLeaf": {"v"}, "NewAux": {"x"}, "NewMid": {"w", "leaf"}, "Plain": {"z"}, "NewTask": {"x"},
+            "Holder": {"n"}, "NewBig": {"n", "mid"}}
 
 
 def pick(rng, names, p_old):
@@ -32,8 +42,28 @@ def pick(rng, names, p_old):
     return names[0]
 
 
+def flag(rng, node, p_true, p_false):
+    """setmeta(config, True / False) on the node: True = ignored wherever it is a member (parameter, list, dict),
+    False = counted even when it is given through a Meta[...] parameter; absent = the declaration decides"""
+    r = rng.random()
+    if r < p_true:
+        node["meta"] = True
+    elif r < p_true + p_false:
+        node["meta"] = False
+    return node
+
+
 def gen_leaf(rng, p):
-    return {"c": pick(rng, LEAVES, p), "a": {"v": rng.randrange(3)}}
+    return flag(rng, {"c": pick(rng, LEAVES, p), "a": {"v": rng.randrange(3)}}, 0.08, 0.05)
+
+
+def gen_aux(rng, p):
+    """a value for a Meta[...] parameter: mostly forced into the identifier (False), sometimes left to the
+    declaration (ignored) or explicitly ignored (True)"""
+    a = {"x": rng.randrange(3)}
+    if rng.random() < 0.4:
+        a["leaf"] = gen_leaf(rng, p)
+    return flag(rng, {"c": pick(rng, AUXES, p), "a": a}, 0.1, 0.6)
 
 
 def gen_mid(rng, p):
@@ -44,7 +74,9 @@ def gen_mid(rng, p):
         a["items"] = [gen_leaf(rng, p) for _ in range(rng.choice([1, 2, 3]))]
     if rng.random() < 0.3:
         a["table"] = {"dict": {k: gen_leaf(rng, p) for k in rng.sample(["a", "b", "c"], rng.choice([1, 2]))}}
-    return {"c": pick(rng, MIDS, p), "a": a}
+    if rng.random() < 0.25:
+        a["aux"] = gen_aux(rng, p)
+    return flag(rng, {"c": pick(rng, MIDS, p), "a": a}, 0.05, 0.04)
 
 
 def gen_plain(rng, p):
@@ -60,10 +92,19 @@ def gen_task(rng, p):
         a = {"x": rng.randrange(4)}
         if rng.random() < 0.4:
             a["leaf"] = gen_leaf(rng, p)
+        if rng.random() < 0.4:
+            a["aux"] = gen_aux(rng, p)
         return {"c": pick(rng, TASKS, max(p, 0.6)), "a": a}
     if k == "big":
-        return {"c": pick(rng, BIGS, p), "a": {"n": rng.randrange(3), "mid": gen_mid(rng, p)}}
+        a = {"n": rng.randrange(3), "mid": gen_mid(rng, p)}
+        if rng.random() < 0.3:
+            a["aux"] = gen_aux(rng, p)
+        return {"c": pick(rng, BIGS, p), "a": a}
     a = {"n": rng.randrange(3)}
+    if rng.random() < 0.35:
+        a["aux"] = gen_aux(rng, p)
+    if rng.random() < 0.12:
+        a["auxes"] = [gen_aux(rng, p) for _ in range(rng.choice([1, 2]))]
     if rng.random() < 0.6:
         a["mid"] = gen_mid(rng, p)
     if rng.random() < 0.5:
@@ -72,7 +113,7 @@ def gen_task(rng, p):
         a["named"] = {"dict": {k: gen_mid(rng, p) for k in rng.sample(["k1", "k2"], rng.choice([1, 2]))}}
     if rng.random() < 0.3:
         a["plain"] = gen_plain(rng, p)
-    if len(a) == 1:
+    if not set(a) - {"n", "aux", "auxes"}:
         a["leaves"] = [gen_leaf(rng, 0.9)]
     return {"c": "Holder", "a": a}
 
@@ -94,6 +135,30 @@ def walk(spec, f):
 def classes_of(spec):
     out = []
     walk(spec, lambda n: out.append(n["c"]))
+    return out
+
+
+def flags_of(spec):
+    """which kinds of meta flags the graph carries: "false-in-meta-param" (a member forced into the identifier),
+    "true" (a member ignored), "false-in-param" (an explicit False where it changes nothing)"""
+    out = set()
+
+    def go(s, in_meta):
+        if isinstance(s, list):
+            for x in s:
+                go(x, in_meta)
+        elif isinstance(s, dict):
+            if "dict" in s:
+                for v in s["dict"].values():
+                    go(v, in_meta)
+            elif "c" in s:
+                if s.get("meta") is True:
+                    out.add("true")
+                elif s.get("meta") is False:
+                    out.add("false-in-meta-param" if in_meta else "false-in-param")
+                for k, v in s["a"].items():
+                    go(v, k in META_PARAMS)
+    go(spec, False)
     return out
 
 
@@ -128,7 +193,7 @@ def share(rng, spec):
 
 def gen_graph(rng):
     p = rng.choice([0.3, 0.6, 0.9])
-    g = rng.choices([gen_task, gen_mid, gen_plain, gen_leaf], [6, 2, 1, 1])[0](rng, p)
+    g = rng.choices([gen_task, gen_mid, gen_plain, gen_leaf, gen_aux], [6, 2, 1, 1, 1])[0](rng, p)
     if rng.random() < 0.15:
         g = share(rng, g)
     return g
@@ -263,6 +328,25 @@ def oracle(c, case, ans):
     info = dict(case=case)
     prev = None
     any_fix = False
+    # (0) what the repair command recomputes from a stored params.json (its loader, the classes as they are now) is
+    #     the identity of the same graph written with the replacement classes: the directory is linked / moved
+    #     where a re-submit looks for it
+    for ix, (j, rc) in enumerate(zip(case["jobs"], ans.get("recomputed", []))):
+        mk = f"{case['name']}:job{ix}"
+        n = exp.get(mk)
+        if n is None or ix in moved or rc["state"] == "absent":
+            continue
+        kind = "meta-flagged-graph" if flags_of(j["spec"]) else "unflagged-graph"
+        where = dict(info, job=ix, spec=j["spec"], stored_under=case["old"][ix]["id"], recomputed=rc,
+                     replacement=ans["new"][ix], flags=sorted(flags_of(j["spec"])))
+        if rc["state"] != "ok":
+            c.violation("C20:recompute-fails:" + kind, "the repair command cannot load a params.json written by a submit: "
+                        "the directory is never made reachable under the new identifier", where)
+        elif (rc["type"], rc["id"]) != n:
+            c.violation("C20:recomputed-identity-differs:" + kind,
+                        "the identity the repair command recomputes from params.json is not the identity of the same graph "
+                        "written with the replacement classes: the stored result is linked / moved where a re-submit never looks",
+                        where)
     for ix, op in enumerate(ans["ops"]):
         tb, ta = tree_map(state), tree_map(op["after"])
         where = dict(info, op_index=ix, op=op["op"], before=state, after=op["after"])
@@ -391,6 +475,43 @@ def g_case(item):
     return f"({init}, {glist(ops)})"
 
 
+def load_items(case, ans, classes_now):
+    """one observation per job directory whose params.json the repair command can be expected to load: the class
+    table of now, the submitted graph and the definitions its params.json holds (phase A, over the same indices),
+    what the real loader + identifier answered (phase B), and the identity of the replacement graph"""
+    exp, moved = expected_recomp(case, ans)
+    pyix = {cl["py"]: i for i, cl in enumerate(classes_now)}
+    out = []
+    for ix, (o, rc) in enumerate(zip(case["old"], ans.get("recomputed", []))):
+        n = exp.get(f"{case['name']}:job{ix}")
+        if n is None or ix in moved or rc["state"] not in ("ok", "failed") or "graph" not in o:
+            continue
+        if any(d["id"] < 0 or d["py"] not in pyix for d in o["defs"]) or any(x["py"] not in pyix for x in o["graph"]):
+            continue
+        out.append(dict(classes=classes_now, pyix=pyix, graph=o["graph"], defs=o["defs"],
+                        real=(rc["type"], rc["id"]) if rc["state"] == "ok" else None, repl=n,
+                        case=dict(jobs=[case["jobs"][ix]], manual=[], ops=case["ops"][:1])))
+    return out
+
+
+def g_tid_id(p):
+    return f"({gbytes(p[0].encode('utf-8'))}%N, {gbytes(bytes.fromhex(p[1]))}%N)"
+
+
+def g_load(it):
+    pyix = it["pyix"]
+    nodes = [dict(x, cls=pyix[x["py"]]) for x in it["graph"]]
+
+    def g_def(d):
+        fields = glist(f"({gbytes(k)}%N, {identgen.g_value(v)})" for k, v in d["fields"])
+        return (f"{{| d_id := {gnat(d['id'])}; d_cls := {gnat(pyix[d['py']])}; d_fields := {fields}; "
+                f"d_pre := {glist(gnat(q) for q in d['pre'])}; d_init := {glist(gnat(q) for q in d['init'])}; "
+                f"d_meta := {gopt(d['meta'], gbool)}; d_task := {gopt(d['task'], gnat)} |}}")
+    return (f"{{| l_classes := {identgen.g_classes(it['classes'])}; l_heap := {identgen.g_heap(nodes)}; "
+            f"l_defs := {glist(g_def(d) for d in it['defs'])}; l_root := 0%nat; "
+            f"l_real := {gopt(it['real'], g_tid_id)}; l_repl := {g_tid_id(it['repl'])} |}}")
+
+
 def representable(ans):
     for tree in [ans["before"]] + [op["after"] for op in ans["ops"]]:
         for e in tree:
@@ -417,14 +538,33 @@ def run_workspaces(c, cases):
     def is_real(case):
         return any(j["mode"] == "run" for j in case["jobs"])
 
-    def both(part, timeout):
-        olds = run_impl("drive_c20.py", dict(phase="A", root=str(root), cases=part), timeout=timeout,
+    def phase_a(part, timeout):
+        return run_impl("drive_c20.py", dict(phase="A", root=str(root), cases=part), timeout=timeout,
                         extra_env={"VPK_C20_DEPRECATED": "0"})
+
+    def both(part, timeout):
+        olds = phase_a(part, timeout)
+        again = []
         for case, o in zip(part, olds):
             paths = [(x["type"], x["id"]) for x in o]
             if len(set(paths)) != len(paths):
-                raise InternalError("generator produced two jobs with the same former identity: " + json.dumps(case["jobs"]))
-            case["old"] = o
+                # two specs with the same former identity (they differ in ignored members only): one job directory;
+                # keep the first, drop the manual repairs that name the others, and submit again in a fresh workspace
+                drop = sorted((i for i, q in enumerate(paths) if q in paths[:i]), reverse=True)
+                for i in drop:
+                    del case["jobs"][i]
+                    case["manual"] = [reindex(m, i) for m in case["manual"] if i not in job_refs(m)]
+                case["name"] += "d"
+                dups.append(len(drop))
+                again.append(case)
+            else:
+                case["old"] = o
+        if again:
+            for case, o in zip(again, phase_a(again, timeout)):
+                paths = [(x["type"], x["id"]) for x in o]
+                if len(set(paths)) != len(paths):
+                    raise InternalError("two jobs with the same former identity after pruning: " + json.dumps(case["jobs"]))
+                case["old"] = o
         return run_impl("drive_c20.py", dict(phase="B", root=str(root), cases=part), timeout=timeout,
                         extra_env={"VPK_C20_DEPRECATED": "1"})
 
@@ -443,7 +583,7 @@ def run_workspaces(c, cases):
                     j["mode"] = "gen"
             return both(part, 1500)
 
-    hung = []
+    hung, dups = [], []
     plain = [x for x in cases if not is_real(x)]
     real = [x for x in cases if is_real(x)]
     parts = chunks(plain, 16) + chunks(real, max(1, (len(real) + 3) // 4))
@@ -455,6 +595,8 @@ def run_workspaces(c, cases):
             byname[id(case)] = ans
     if hung and hasattr(c, "count"):
         c.count("real-run-chunks-timed-out(re-done without execution)", len(hung))
+    if dups and hasattr(c, "count"):
+        c.count("jobs-dropped(same former identity as another job of the case)", sum(dups))
     return [byname[id(case)] for case in cases]
 
 
@@ -495,6 +637,41 @@ def reindex(m, drop):
     return m
 
 
+def spec_reductions(spec):
+    """smaller graphs: one optional member, one list / dict element or one meta flag less"""
+    sites = []
+
+    def go(s, path):
+        if isinstance(s, list):
+            for i, x in enumerate(s):
+                if len(s) > 1:
+                    sites.append((path, "del", i))
+                go(x, path + [i])
+        elif isinstance(s, dict):
+            if "dict" in s:
+                for k, v in s["dict"].items():
+                    if len(s["dict"]) > 1:
+                        sites.append((path + ["dict"], "del", k))
+                    go(v, path + ["dict", k])
+            elif "c" in s:
+                if "meta" in s:
+                    sites.append((path, "del", "meta"))
+                for k, v in s["a"].items():
+                    if k not in REQUIRED[OLD2NEW.get(s["c"], s["c"])]:
+                        sites.append((path + ["a"], "del", k))
+                    go(v, path + ["a", k])
+    go(spec, [])
+    for path, _, k in sites:
+        s2 = copy.deepcopy(spec)
+        at = s2
+        for q in path:
+            at = at[q]
+        del at[k]
+        if '"ref"' in json.dumps(s2) and '"label"' not in json.dumps(s2):
+            continue            # the labelled occurrence of a shared node was dropped
+        yield s2
+
+
 def reductions(case):
     base = {k: copy.deepcopy(case[k]) for k in ("jobs", "manual", "ops")}
     if len(base["jobs"]) > 1:
@@ -517,10 +694,16 @@ def reductions(case):
             c2 = copy.deepcopy(base)
             c2["jobs"][i]["mode"] = "gen"
             yield c2
+    for i, j in enumerate(base["jobs"]):
+        for s2 in spec_reductions(j["spec"]):
+            c2 = copy.deepcopy(base)
+            c2["jobs"][i]["spec"] = s2
+            yield c2
 
 
-def shrink(c, case, key, rounds=6):
-    """greedy: drop jobs / manual repairs / calls while the oracle still reports the same key on the real code"""
+def shrink(c, case, key, rounds=10):
+    """greedy: drop jobs / manual repairs / calls / members of the graphs while the oracle still reports the same key
+    on the real code"""
     cur = {k: case[k] for k in ("jobs", "manual", "ops")}
     best = None
     tag = hashlib.sha1(key.encode()).hexdigest()[:6]
@@ -559,7 +742,8 @@ def shape(case, ans):
 
 def run(c: Check):
     c.rule = ("workspace case = 1-4 real job directories submitted under former identities (Old* classes of vpk_c20 before "
-              "@deprecate, at the root and/or nested), 0-3 manual partial repairs, 1-5 real fix_deprecated / CLI calls; "
+              "@deprecate, at the root and/or nested; members given through Meta[...] parameters and members flagged "
+              "setmeta(True / False) in parameters, lists and dicts), 0-3 manual partial repairs, 1-5 real fix_deprecated / CLI calls; "
               "non-trivial = at least one directory whose recomputed identifier differs from its name and at least one call "
               "with --fix, distinct by (tree shape, calls, manual repairs); identifier graph non-trivial = contains a deprecated class")
     if not os.environ.get("VERIF_DEV_NOBUILD"):   # development only: files not yet in _CoqProject
@@ -586,11 +770,18 @@ def run(c: Check):
 
     # ---- workspace half
     answers = run_workspaces(c, cases) if cases else []
-    items = []
+    classes_now = run_impl("drive_c20.py", dict(phase="C"), extra_env={"VPK_C20_DEPRECATED": "1"}) if cases else []
+    items, loads = [], []
     col = Collector()
     for case, ans in zip(cases, answers):
         c.evaluations += 1
         exp, _ = expected_recomp(case, ans)
+        loads.extend(load_items(case, ans, classes_now))
+        for j in case["jobs"]:
+            fl = flags_of(j["spec"])
+            c.count("job:meta-flags=" + ("+".join(sorted(fl)) if fl else "none"))
+        for rc in ans.get("recomputed", []):
+            c.count("recompute:" + rc["state"])
         c.count(f"jobs={len(case['jobs'])}")
         c.count(f"manual={sum(ans['manual_applied'])}")
         for m, ap in zip(case["manual"], ans["manual_applied"]):
@@ -611,21 +802,41 @@ def run(c: Check):
                 c.count("resubmit-real:" + r["real"]["state"] + (":reran" if r["real"]["ran_after"] != r["real"]["ran_before"] else ":not-rerun"))
         if stale and any(op["fix"] for op in ans["ops"]):
             c.nontrivial.add("ws:" + shape(case, ans))
+            if any("false-in-meta-param" in flags_of(j["spec"]) for j in case["jobs"]):
+                c.count("nontrivial-with-a-member-forced-into-the-identifier(meta=False)")
         oracle(col, case, ans)
         if representable(ans):
             items.append((case, ans))
         else:
             c.count("not-representable")
-    for key, (what, data) in col.found.items():
+    def shrunk(kv):
+        key, (what, data) = kv
         small, best = shrink(c, data["case"], key)
-        if best is not None:
-            what, data = best
-        c.violation(key, what, data)
+        return (key,) + (best if best is not None else (what, data))
+
+    with ThreadPoolExecutor(max_workers=4) as ex:          # one greedy descent per reported key, on the real code
+        for key, what, data in list(ex.map(shrunk, list(col.found.items()))):
+            c.violation(key, what, data)
     c.samples = [dict(jobs=x[0]["jobs"], manual=x[0]["manual"], ops=x[0]["ops"], before=x[1]["before"],
                       after_last=x[1]["ops"][-1]["after"], resubmit=x[1]["resubmit"]) for x in items[:2]]
     header = ("From Coq Require Import ZArith List Bool.\nFrom XV Require Import model.Deprecate corr.DeprecateCorr.\n"
               "Import ListNotations.\nOpen Scope Z_scope.\n")
     bad = c.corr_shards("corr", header, items, g_case, "check_case", shard=150) if items else []
+    # the step that produces the recomputed identity: the model's loader (model/Serial.v load_into) run on the real
+    # params.json definitions, then the model's identifier with SHA-256, against what the real loader + identifier
+    # answered and against the identity of the replacement graph
+    lheader = ("From Coq Require Import ZArith NArith List Bool.\nFrom XV Require Import core.Value model.Hash model.Serial "
+               "model.Deprecate corr.DeprecateCorr.\nImport ListNotations.\n")
+    lbad = c.corr_shards("load", lheader, loads, g_load, "check_load", shard=120 if c.quick else 400) if loads else []
+    c.extra["disagreeing_loads"] = [dict(loads[i]["case"], real=loads[i]["real"], replacement=loads[i]["repl"]) for i in lbad[:3]]
+    if lbad:
+        # diagnostic only: do the disagreeing directories behave like a loader that restores only a truthy meta flag?
+        sub = [loads[i] for i in lbad[:100]]
+        body = (lheader + "Definition cases := [\n" + ";\n".join(g_load(x) for x in sub) + "].\n"
+                "Eval vm_compute in (map check_load_truthy cases).\n")
+        rc, out, err = c.coq_eval("loaddiag", body, 600)
+        if rc == 0:
+            c.extra["disagreeing_loads_matching_truthy_only_meta_loader"] = f"{out.count('true')}/{len(sub)}"
     c.extra["disagreeing_cases"] = [dict(case={k: items[i][0][k] for k in ("jobs", "manual", "ops")},
                                          observed=items[i][1]) for i in bad[:3]]
     if bad:
@@ -674,6 +885,9 @@ def run(c: Check):
         "links from outside jobs/ (xp/<name>/jobs/...) to a moved directory are not modelled",
         "identifier half: implementation-side oracle only in this file; the model tie (deprecated_same_ident on Hash.v) "
         "is added by the identifier model",
+        "recomputed identity: the definitions of params.json are aligned with the submitted graph through the python ids the "
+        "implementation wrote (same process as the submit); json round-trips ints, strings, lists and dicts; the class table "
+        "of now is read by reflection from the real ObjectTypes after @deprecate",
     ]
 
 
